@@ -44,3 +44,160 @@ PLAN["C12"] = {
          {"flavour": "miri", "shards": 16, "budget": 900, "timeout": 3000}],
     ),
 }
+
+SOLVE_ASSUME = BASE_ASSUME + PSD_ASSUME + [
+    "acceptance thresholds carry an explicit rounding slack 64*u*(n+m+3)*|terms|/denominator; a solver honestly at 0.999*tol is never accused",
+]
+
+PLAN["C01"] = {
+    "rule": "planted strictly feasible conic QPs (all cone kinds incl. PSD via refblas, sizes n<=25, m<=70, magnitudes 1e-1..1e1 and 1e-3..1e3, planted infinite bounds, "
+            "ill-posed instances in 15%) x random settings (tolerances, equilibration on/off/bounds, presolve, static/dynamic regularisation, iterative refinement, "
+            "qdldl/auto/faer); every `Solved` result is re-evaluated in double-double on the user's data: normalised residuals < tol_feas, gap test, s in K, z in K*, "
+            "dropped rows (s=bound,z=0), weak-duality sandwich against the planted pair; non-trivial = distinct problem that ended Solved",
+    "assumptions": SOLVE_ASSUME,
+    "min_nontrivial": 50,
+    "runs": runs(
+        [dict(MON16, budget=150)],
+        [dict(MON16, budget=900), {"flavour": "asan", "shards": 16, "scale": 0.08, "budget": 600},
+         {"flavour": "miri", "shards": 16, "budget": 1200, "timeout": 3600}],
+    ),
+}
+
+PLAN["C01"]["runs"]["quick"][0]["budget"] = 200
+
+PLAN["C02"] = {
+    "rule": "strongly primal-infeasible (A'z=0, b'z=-1 planted) and strongly dual-infeasible (Px=0, Ax+s=0, q'x=-1 planted) problems over all cone kinds, 40% with "
+            "cone-preserving row/column rescaling over up to 8 decades, x random settings with equilibration extremes; every (Almost)Primal/DualInfeasible verdict is "
+            "re-evaluated in double-double on the user's data: z in K*, b'z<0 (resp. s in K, q'x<0), the documented scale-dependent tests re-computed from the returned "
+            "certificate with the final kappa (observer) and the public equilibration constant c, objectives NaN; non-trivial = distinct problem that ended with an infeasibility verdict",
+    "assumptions": SOLVE_ASSUME + ["final (tau,kappa) are read through the read-only observer hook"],
+    "min_nontrivial": 50,
+    "runs": runs([dict(MON16, budget=150)], [dict(MON16, budget=900), {"flavour": "asan", "shards": 16, "scale": 0.1, "budget": 600}]),
+}
+
+PLAN["C03"] = {
+    "rule": "planted / infeasible / badly scaled problems x random settings x engineered budgets (max_iter 0..14, time_limit 0, unreachable tolerances) so that every terminal "
+            "status occurs; after each solve: lengths, solution.status==info.status, iterations<=max_iter and consistent with the observed iteration indices, "
+            "obj_val/obj_val_dual recomputed in double-double from the returned vectors (tolerance = f64 rounding bound of the sum of |terms|), r_prim/r_dual = documented "
+            "normalised residuals of the de-homogenised returned point, Solved/AlmostSolved meet the full/reduced tolerances, Almost*Infeasible meet the reduced certificate test; "
+            "non-trivial = distinct (problem, settings) solved; per-status counts are in `counters`",
+    "assumptions": SOLVE_ASSUME,
+    "min_nontrivial": 100,
+    "runs": runs([dict(MON16, budget=150)], [dict(MON16, budget=900), {"flavour": "asan", "shards": 16, "scale": 0.1, "budget": 600}]),
+}
+
+PLAN["C04"] = {
+    "rule": "degenerate shapes (m=0, n=1, A=0, P=0, empty and singleton cones, duplicated rows, infeasible, unbounded, no strict interior, magnitudes 1e+-150, zero rows/cols) x "
+            "max_iter in {0..5,200} x time_limit in {0,1e-9,1e-4,inf} x random settings, planted problems with default/random settings, a regression corpus, and 7 kinds of "
+            "dimension mismatch; oracle: no panic (each shard is a subprocess; panics are caught per case and keyed by panic site), terminal status, iterations<=max_iter, number of "
+            "iteration events <= max_iter+2, no iteration index beyond the first event whose own clock value exceeds time_limit, documented construction panic on mismatches",
+    "assumptions": SOLVE_ASSUME + ["'never hangs' is restated as bounded progress: logical event bound plus a wall-clock watchdog whose firing is inconclusive"],
+    "min_nontrivial": 100,
+    "runs": runs([dict(MON16, budget=200)], [dict(MON16, budget=1200), {"flavour": "asan", "shards": 16, "scale": 0.05, "budget": 600}]),
+}
+
+PLAN["C07"] = {
+    "rule": "planted/infeasible problems incl. nonsymmetric cones x max_step_fraction in {0.5,0.9,0.99,0.999} x backtracking step in {0.5,0.8,0.95}: every observed iterate has "
+            "tau,kappa>0, s strictly in K and z strictly in K* (harness predicates on the internal cone list, 1e-13 relative allowance, zero-cone slack exactly 0), every accepted "
+            "step has alpha in (0,1]; for k=0..min(iterations,25|40) a run limited to max_iter=k ends on an internal iterate bit-identical to the long run's k-th iterate and "
+            "returns it un-scaled with the public equilibration and tau (kappa) to 8 ulp; non-trivial = distinct problem",
+    "assumptions": SOLVE_ASSUME + ["internal iterates are read through the read-only observer hook; bitwise comparison is between two executions of the code under test"],
+    "min_nontrivial": 40,
+    "runs": runs([dict(MON16, budget=200, scale=4.0)], [dict(MON16, budget=1200, scale=2.0), {"flavour": "asan", "shards": 16, "scale": 0.1, "budget": 600}]),
+}
+
+PLAN["C09"] = {
+    "rule": "planted problems with +infinity-like b entries (=bound, bound(1+1e-12), 2*bound, 1e30, f64::MAX, just below the bound) placed in nonnegative cones (some, all of a cone, "
+            "all rows of the problem) and in other cone kinds, custom bounds via set_infinity (restored afterwards), presolve on/off; model: dropped set = NN rows with b>=bound at "
+            "construction; checks: lengths, data.m = m-|D|, z=0 and s=bound at dropped rows, nothing dropped outside NN / with presolve off, kept entries pass the C01 oracle for the "
+            "hand-reduced problem and agree with a presolve-off solve of it (bitwise agreement logged); histories of set_infinity/default_infinity with several solvers built at "
+            "different points and solved later; non-trivial = distinct problem with at least one planted entry",
+    "assumptions": SOLVE_ASSUME + ["SOC(1)/PSD(1) singleton rows at or above the bound are accepted either dropped or capped (the property text can be read both ways)"],
+    "min_nontrivial": 50,
+    "runs": runs([dict(MON16, budget=150)], [dict(MON16, budget=900), {"flavour": "asan", "shards": 16, "scale": 0.1, "budget": 600}]),
+}
+
+# ---------------------------------------------------------------------------------------------
+# C06: statistical verdict from the merged counters.  Envelope fixed once from the unchanged tree
+# (calibration: thorough run, seed 1, N=6399 on 2026-10-02: 6364 Solved (99.45%), iterations of Solved
+# runs mean 12.24, p95 21, max 32; per stratum mean/p95: Zero 11.39/20 NN 12.12/21 SOC 11.88/20
+# Exp 13.16/21 Pow 13.34/21 GenPow 16.78/23 PSD 12.22/21).  Margins: mean +25%, p95 +max(3, 25%).
+# ---------------------------------------------------------------------------------------------
+C06_CAL = {"all": (12.24, 21), "Zero": (11.39, 20), "NN": (12.12, 21), "SOC": (11.88, 20), "Exp": (13.16, 21),
+           "Pow": (13.34, 21), "GenPow": (16.78, 23), "PSD": (12.22, 21)}
+
+
+def _binom_tail(n, k, p):
+    """P[X >= k] for X ~ Bin(n, p)"""
+    import math
+    if k <= 0:
+        return 1.0
+    lp, lq = math.log(p), math.log1p(-p)
+    tot = 0.0
+    for i in range(k, n + 1):
+        t = math.lgamma(n + 1) - math.lgamma(i + 1) - math.lgamma(n - i + 1) + i * lp + (n - i) * lq
+        tot += math.exp(t)
+        if i > k + 200 and math.exp(t) < 1e-30:
+            break
+    return min(1.0, tot)
+
+
+def _hist_stats(counters, prefix):
+    h = sorted((int(k[len(prefix):]), v) for k, v in counters.items() if k.startswith(prefix))
+    tot = sum(v for _, v in h)
+    if tot == 0:
+        return None
+    acc, p95 = 0, None
+    for it, v in h:
+        acc += v
+        if p95 is None and acc >= 0.95 * tot:
+            p95 = it
+    return {"mean": sum(it * v for it, v in h) / tot, "p95": p95, "max": h[-1][0], "n": tot}
+
+
+def c06_post(merged, tier):
+    c = merged["counters"]
+    out = []
+    N = c.get("N", 0) + c.get("outcome_panic", 0)
+    k = c.get("not_solved", 0) + c.get("outcome_panic", 0)
+    stats = {"N": N, "not_solved": k, "rate": (k / N if N else None)}
+    if N:
+        tail = _binom_tail(N, k, 0.005)
+        stats["binomial_tail_p0.005"] = tail
+        if k / N > 0.005 and tail < 1e-5:
+            out.append({"oracle": "solved_rate", "sig": "solved_rate",
+                        "detail": {"N": N, "not_solved": k, "rate": k / N, "tail_probability_under_0.5pct": tail}})
+    strata = {}
+    for name, (cm, cp) in C06_CAL.items():
+        pre = "iters_hist_" if name == "all" else f"stratum_{name}_hist_"
+        st = _hist_stats(c, pre)
+        if not st or st["n"] < 30:
+            continue
+        lim_mean = cm * 1.25
+        lim_p95 = cp + max(3, 0.25 * cp)
+        st["limit_mean"], st["limit_p95"] = lim_mean, lim_p95
+        strata[name] = st
+        if st["mean"] > lim_mean:
+            out.append({"oracle": "iterations_mean", "sig": f"iterations_mean:{name}", "detail": dict(st, stratum=name)})
+        if st["p95"] > lim_p95:
+            out.append({"oracle": "iterations_p95", "sig": f"iterations_p95:{name}", "detail": dict(st, stratum=name)})
+        if name != "all":
+            ns, nn = c.get(f"stratum_{name}_not_solved", 0), c.get(f"stratum_{name}_N", 0)
+            if nn and _binom_tail(nn, ns, 0.02) < 1e-6:
+                out.append({"oracle": "solved_rate_stratum", "sig": f"solved_rate_stratum:{name}",
+                            "detail": {"stratum": name, "N": nn, "not_solved": ns}})
+    merged["maxima"]["not_solved_rate"] = stats["rate"] or 0.0
+    merged["notes"].append("C06 statistics: " + __import__("json").dumps({"overall": stats, "strata": strata}))
+    return out
+
+
+PLAN["C06"] = {
+    "rule": "family G = planted strictly feasible conic QPs, generator-classified well posed (equality rows and [P;A] of full rank with smin/smax>=1e-6), sizes n<=60, m<=150, all cone "
+            "mixtures incl. PSD, entry magnitudes <=1e3, DEFAULT settings; verdict is statistical with fixed thresholds: violated iff not-Solved count k has k/N>0.5% and binomial tail "
+            "P[X>=k|p=0.005]<1e-5, or mean / 95th percentile of iteration counts (overall or per cone-kind stratum) exceeds the envelope calibrated on the unchanged tree (+25% / +max(3,25%)), "
+            "or a stratum's not-Solved count is incompatible with a 2% rate (tail<1e-6); non-trivial = distinct instance",
+    "assumptions": SOLVE_ASSUME + ["the claim is about family G as implemented in vkit::gen / c06::family_g, nothing wider", "envelope constants recorded in plan.py with their calibration run"],
+    "min_nontrivial": 300,
+    "post": c06_post,
+    "runs": runs([dict(MON16, budget=200)], [dict(MON16, budget=1200)]),
+}
